@@ -495,7 +495,7 @@ def extendBody : Nat → List PTok → List FieldD → Option (List FieldD × Li
 structure Acc where
   syntaxOk : Bool := false
   pkg : String := ""
-  imports : List String := []
+  imports : List (String × String) := []
   opts : List RawOpt := []
   exts : List (String × FieldD) := []
   items : List Item := []
@@ -516,7 +516,11 @@ def topLevel : Nat → List PTok → Acc → Option Acc
        | some (p, ⟨.sym ';', _, _⟩ :: r') => topLevel f r' { a with pkg := p }
        | _ => none)
     | ⟨.ident "import", _, _⟩ :: ⟨.str s, _, _⟩ :: ⟨.sym ';', _, _⟩ :: r =>
-      topLevel f r { a with imports := a.imports ++ [unquote s] }
+      topLevel f r { a with imports := a.imports ++ [(unquote s, "")] }
+    | ⟨.ident "import", _, _⟩ :: ⟨.ident "public", _, _⟩ :: ⟨.str s, _, _⟩ :: ⟨.sym ';', _, _⟩ :: r =>
+      topLevel f r { a with imports := a.imports ++ [(unquote s, "public ")] }
+    | ⟨.ident "import", _, _⟩ :: ⟨.ident "weak", _, _⟩ :: ⟨.str s, _, _⟩ :: ⟨.sym ';', _, _⟩ :: r =>
+      topLevel f r { a with imports := a.imports ++ [(unquote s, "weak ")] }
     | ⟨.ident "option", _, _⟩ :: _ =>
       (match optionStmt ts with
        | some (o, r) => topLevel f r { a with opts := a.opts ++ [o] }
